@@ -74,6 +74,19 @@ var baseTree = []srcFile{
 	{path: ".hidden", dir: true, mode: 0o755, mtime: 1600000071},
 	{path: ".hidden/sub", dir: true, mode: 0o755, mtime: 1600000072},
 	{path: ".hidden/sub/x.conf", mode: 0o644, data: "hidden", mtime: 1600000073},
+	// names the build host is likely to have as symbolic links at the same place below / (os-release below /etc, bin below /)
+	{path: "src/host", dir: true, mode: 0o755, mtime: 1600000080},
+	{path: "src/host/os-release", mode: 0o644, data: "ours", mtime: 1600000081},
+	{path: "src/hostroot", dir: true, mode: 0o755, mtime: 1600000082},
+	{path: "src/hostroot/bin", dir: true, mode: 0o755, mtime: 1600000083},
+	{path: "src/hostroot/bin/tool", mode: 0o755, data: "tool", mtime: 1600000084},
+	{path: "src/hostroot/var", dir: true, mode: 0o755, mtime: 1600000085},
+	{path: "src/hostroot/var/run", dir: true, mode: 0o755, mtime: 1600000086},
+	{path: "src/hostroot/var/run/x.pid", mode: 0o644, data: "1", mtime: 1600000087},
+	// a name in decomposed Unicode form (e + combining acute) beside the composed one
+	{path: "src/nfc", dir: true, mode: 0o755, mtime: 1600000090},
+	{path: "src/nfc/e\u0301.txt", mode: 0o644, data: "decomposed", mtime: 1600000091},
+	{path: "src/nfc/\u00e9.txt", mode: 0o644, data: "composed", mtime: 1600000092},
 }
 
 func materialise(root string, tree []srcFile) {
@@ -364,7 +377,7 @@ type entrySpec struct {
 }
 
 var c05Dsts = []string{"/a", "/a/", "/a/b", "/a/b/c", "/a-b", "etc/x", "/"}
-var c05DstsMore = []string{"", "../x", "//a//./b/", "/a/b/..", "/usr/bin", "/a/b/c/", "a", "/etc/"}
+var c05DstsMore = []string{"", "../x", "//a//./b/", "/a/b/..", "/usr/bin", "/a/b/c/", "a", "/etc/", "/a/e\u0301", "/a/\u00e9", "/etc", "/"}
 
 var c05Kinds = []entrySpec{
 	{"", "src/f1"},
@@ -477,6 +490,17 @@ func genC05(tier string, seed int64, w *caseWriter, st *c05Stats) {
 	}
 	// forced: patterns beside a file of the pattern's own name, dot names in the working directory, packager tags with
 	// punctuation - each alone and next to a plain file, for plain and punctuated packager names
+	for _, e := range []struct {
+		k   entrySpec
+		dst string
+	}{{entrySpec{"", "src/host"}, "/etc"}, {entrySpec{files.TypeConfig, "src/host/*"}, "/etc"}, {entrySpec{"", "src/hostroot"}, "/"},
+		{entrySpec{"", "src/hostroot/**"}, "/"}, {entrySpec{"", "src/hostroot/var"}, "/var"}, {entrySpec{"", "src/nfc"}, "/opt/nfc"},
+		{entrySpec{files.TypeTree, "src/nfc"}, "/opt/nfc"}, {entrySpec{"", "src/nfc/*"}, "/opt/nfc"}, {entrySpec{"", "src/f1"}, "/opt/e\u0301"}} {
+		for _, pk := range []string{"", "deb", "rpm"} {
+			emit([]*files.Content{mkEntry(e.k, e.dst, "", 0)}, pk, 0o022, fixedMT, false, "f")
+			emit([]*files.Content{mkEntry(entrySpec{"", "src/f2"}, "/opt/\u00e9", "", 0), mkEntry(e.k, e.dst, "", 0)}, pk, 0o022, fixedMT, false, "f")
+		}
+	}
 	for _, k := range []entrySpec{{"", "src/pat/app[12].conf"}, {files.TypeConfig, "src/g[1].txt"}, {"", ".*rc"}, {files.TypeConfig, ".*"}, {"", ".hidden/**"}, {"", "src/f1"}} {
 		for _, d := range []string{"/a", "/a/", "/a/b"} {
 			for _, tag := range []string{"", "termux.deb", "deb,rpm", "deb"} {
